@@ -10,7 +10,13 @@ EXTENDS PopRel, Json, IOUtils, TLC
 Recs == ndJsonDeserialize(IOEnv.TRACE_FILE)
 VARIABLES i, bad
 Unless(ok, clause) == IF ok THEN {} ELSE {clause}
+Agents(s) == [k \in DOMAIN s |-> [p |-> s[k][1], u |-> s[k][2]]]
+FailsBest(r) ==      \* kind "best": best_solution against the last generation of a pooled-mode run (C03)
+    LET last == Agents(r.last)  b == [p |-> r.best[1], u |-> r.best[2]]
+    IN  Unless(\E k \in DOMAIN last : last[k].p = b.p /\ last[k].u = b.u, "C03.member")
+        \cup Unless(\A k \in DOMAIN last : ~BetterU(r.dir, last[k].u, b.u), "C03.opt")
 Fails(r) ==
+    IF r.kind = "best" THEN FailsBest(r) ELSE
     Unless(\A k \in 1..(Len(r.bests) - 1) : ~BetterU(r.dir, r.bests[k], r.bests[k + 1]), "C17.mono")
     \cup Unless(\A k \in DOMAIN r.bests : ~BetterU(r.dir, r.bests[k], r.best), "C17.bestever")
 Init == i = 1 /\ bad = {}
